@@ -6,14 +6,9 @@ import re
 import vcheck as V
 
 
-def harness(ctx):
-    """The zrdrive binary: built from ctx.repo's working tree (VERIF_ZRDRIVE names a prebuilt
-    binary instead - a development aid for when other drivers in the tree are mid-edit)."""
-    pre = os.environ.get("VERIF_ZRDRIVE")
-    if pre and os.path.exists(pre):
-        ctx.notes.append("prebuilt harness binary used: " + pre)
-        return pre
-    return V.go_build(ctx)
+def harness(ctx, files):
+    """The zrdrive binary built from ctx.repo's working tree with main.go + the given driver files."""
+    return V.go_build(ctx, files=files)
 
 
 def drive(ctx, zr, driver, name, args, timeout=3600):
